@@ -152,6 +152,12 @@ func (prom *Prometheus) RangeQuery(ctx context.Context, expr string, params Rang
 
 		wg.Add(1)
 		go func() {
+			// The same slice can be requested by range queries with a different lookback,
+			// which use a different lock key above, so guard each slice on its own.
+			sliceKey := strconv.FormatUint(query.query.CacheKey(), 10)
+			prom.locker.lock(sliceKey)
+			defer prom.locker.unlock(sliceKey)
+
 			var result queryResult
 			query.result = make(chan queryResult)
 			prom.queries <- query
